@@ -10,6 +10,9 @@ PROPS = {
     "C01": P(1, "exploration",
              quick=dict(checks=4000, timeout=600),
              thorough=dict(checks=40000, shards=14, timeout=2400, fuzz=[("FuzzC01", 180)])),
+    "C02": P(2, "exploration",
+             quick=dict(checks=1200, timeout=900),
+             thorough=dict(checks=6000, shards=12, timeout=3000, race=True)),
     "C09": P(9, "exploration",
              quick=dict(checks=6000, timeout=600),
              thorough=dict(checks=60000, shards=8, timeout=1800, fuzz=[("FuzzC09", 180)])),
